@@ -37,6 +37,7 @@ fn acts() -> Vec<Act> {
 
 #[derive(Clone, Debug, Hash, PartialEq, Eq)]
 struct Model {
+    t: u64, // expiry in ms (constant within one search)
     now: u64,
     last: BTreeMap<u8, u64>, // key id -> last touch
     // download under test: Some((parity of the cached body, next block))
@@ -57,21 +58,25 @@ struct St {
 }
 
 fn fresh(upload: bool) -> St {
+    fresh_with(upload, T)
+}
+
+fn fresh_with(upload: bool, t: u64) -> St {
     let per_entry = clones_per_entry();
     clock::reset();
     let base_live = Ep::live();
     St {
         per_entry,
-        srv: Server::new(BUDGET, Duration::from_millis(T)),
+        srv: Server::new(BUDGET, Duration::from_millis(t)),
         base_live,
-        m: Model { now: 0, last: BTreeMap::new(), dl: None, app_parity: 0, ul_next: 0, ul_covered: [false; NBLK] },
+        m: Model { t, now: 0, last: BTreeMap::new(), dl: None, app_parity: 0, ul_next: 0, ul_covered: [false; NBLK] },
         upload,
         mid: 1,
     }
 }
 
 fn alive(m: &Model, k: u8) -> bool {
-    m.last.get(&k).map(|t| m.now - t < T).unwrap_or(false)
+    m.last.get(&k).map(|t| m.now - t < m.t).unwrap_or(false)
 }
 
 /// How many clones of its key one cache entry holds (2 with lru_time_cache: map key + recency list), measured on
@@ -92,7 +97,7 @@ fn reclaim_check(st: &St) -> Result<(), (String, String)> {
         return Ok(());
     }
     let physical = (Ep::live() - st.base_live) as f64 / per as f64;
-    let expected = st.m.last.iter().filter(|(_, t)| st.m.now - **t < T).count() as f64;
+    let expected = st.m.last.iter().filter(|(_, t)| st.m.now - **t < st.m.t).count() as f64;
     // fewer is fine (an implementation may drop the state of a completed transfer at once); more means that
     // expired state survived a use of the handler
     if physical > expected {
@@ -160,7 +165,7 @@ fn step(st: &mut St, a: &Act) -> Result<(), (String, String)> {
                     if x.app_invoked {
                         return Err((
                             "C20/live-entry-not-used".into(),
-                            format!("follow-up for block {} after {:?} ms idle (< {}) was passed to the application instead of the cache", next, idle, T),
+                            format!("follow-up for block {} after {:?} ms idle (< {}) was passed to the application instead of the cache", next, idle, st.m.t),
                         ));
                     }
                     let body = dbody(parity);
@@ -176,7 +181,7 @@ fn step(st: &mut St, a: &Act) -> Result<(), (String, String)> {
                         let stale = reply.payload == dbody(old_parity)[next as usize * 16..((next as usize + 1) * 16).min(72)];
                         return Err((
                             "C20/expired-entry-used".into(),
-                            format!("follow-up for block {} after {:?} ms idle (> {}) was answered from the handler's cache{}", next, idle, T, if stale { " with the expired body" } else { "" }),
+                            format!("follow-up for block {} after {:?} ms idle (> {}) was answered from the handler's cache{}", next, idle, st.m.t, if stale { " with the expired body" } else { "" }),
                         ));
                     }
                     let body = dbody(app_parity);
@@ -268,7 +273,7 @@ fn step(st: &mut St, a: &Act) -> Result<(), (String, String)> {
 fn key_of(st: &St) -> (Vec<(u8, Vec<String>, Option<u32>, Option<(u16, bool, u8)>, Option<Vec<u8>>, Option<Vec<u8>>)>, Vec<(u8, u64)>, Option<(u8, u32)>, u8, u32, [bool; NBLK]) {
     (
         st.srv.snapshot(),
-        st.m.last.iter().map(|(k, t)| (*k, (st.m.now - t).min(T + 1))).collect(),
+        st.m.last.iter().map(|(k, t)| (*k, (st.m.now - t).min(st.m.t + 1))).collect(),
         st.m.dl,
         st.m.app_parity,
         st.m.ul_next,
@@ -471,7 +476,7 @@ fn realclock_conformance(ctx: &Ctx, rep: &mut Report) {
                 for k in 0..4u32 {
                     srv.exchange(1, &request_bytes(0, 3, k as u16, &[1], &["k"], &[], Some((k, true, 0)), None, &body[k as usize * 16..k as usize * 16 + 16]), &app);
                 }
-                std::thread::sleep(Duration::from_millis(expiry * 4 + 5));
+                rt_pause(expiry * 4 + 5);
                 let x = srv.exchange(1, &request_bytes(0, 3, 9, &[1], &["k"], &[], Some((4, false, 0)), None, &body[64..72]), &app);
                 match srv.app_calls.last() {
                     Some(c) if x.app_invoked => c.request.payload.len() < 64 || c.request.payload[..64].iter().zip(body[..64].iter()).all(|(a, b)| a != b),
@@ -479,7 +484,7 @@ fn realclock_conformance(ctx: &Ctx, rep: &mut Report) {
                 }
             } else {
                 srv.exchange(1, &request_bytes(0, 1, 1, &[1], &["k"], &[], None, None, &[]), &app);
-                std::thread::sleep(Duration::from_millis(expiry * 4 + 5));
+                rt_pause(expiry * 4 + 5);
                 let x = srv.exchange(1, &request_bytes(0, 1, 9, &[1], &["k"], &[], None, Some((1, false, 0)), &[]), &app);
                 x.app_invoked
             };
@@ -503,12 +508,272 @@ fn realclock_conformance(ctx: &Ctx, rep: &mut Report) {
     );
 }
 
+// ---------------------------------------------------------------------------
+// Real-time mode: the same step function and oracle, but time passes by sleeping and the model's clock is the
+// harness's own measurement of the production clock.  Used (a) in the `realclock` configuration and (b) as the
+// deciding exploration when the fake-clock seam turns out not to drive the implementation's notion of time (an
+// implementation that no longer keeps its state in lru_time_cache).  Every verdict is two-sided but guarded: a step
+// whose measured idle times are not clearly below 0.4 x expiry or clearly above 1.5 x expiry is discarded as
+// inconclusive, so scheduling delays can lose coverage but cannot raise an alarm.
+// ---------------------------------------------------------------------------
+const RT: u64 = 150; // expiry in the real-time sequences (ms)
+const RT_LONG: u64 = 260; // "long" pause: > 1.5 x RT
+
+static INCONCLUSIVE: std::sync::atomic::AtomicU64 = std::sync::atomic::AtomicU64::new(0);
+
+/// A pause on the production clock; the harness-owned clock (if the build has one) moves along, so that an
+/// implementation reading either of them sees the time pass.
+fn rt_pause(ms: u64) {
+    std::thread::sleep(Duration::from_millis(ms));
+    if clock::FAKE {
+        clock::advance(ms);
+    }
+}
+
+fn rt_acts() -> Vec<Act> {
+    vec![Act::Next, Act::OtherGet, Act::OtherPut, Act::Tick(RT_LONG)]
+}
+
+/// Runs one action sequence under the production clock. Ok(true) = every step conclusive.
+fn rt_sequence(upload: bool, seq: &[usize]) -> Result<bool, (usize, String, String, String)> {
+    let actions = rt_acts();
+    let mut st = fresh_with(upload, RT);
+    let start = std::time::Instant::now();
+    let ms = |i: std::time::Instant| i.elapsed().as_micros() as u64;
+    // latest possible touch time per key (the model's `last` holds the earliest possible one), microseconds
+    let mut last_hi: BTreeMap<u8, u64> = BTreeMap::new();
+    let mut last_lo: BTreeMap<u8, u64> = BTreeMap::new();
+    for (pos, &a) in seq.iter().enumerate() {
+        if let Act::Tick(d) = &actions[a] {
+            rt_pause(*d);
+            continue;
+        }
+        let before = ms(start);
+        st.m.now = before / 1000;
+        // the model's `last` is in whole milliseconds, earliest possible touch
+        let prev_model = st.m.last.clone();
+        let r = step(&mut st, &actions[a]);
+        let after = ms(start);
+        let mut conclusive = true;
+        for (k, lo) in &last_lo {
+            let hi = last_hi[k];
+            let idle_min = before.saturating_sub(hi);
+            let idle_max = after - lo;
+            if !(idle_max < RT * 400 || idle_min > RT * 1500) {
+                conclusive = false;
+            }
+        }
+        if !conclusive {
+            INCONCLUSIVE.fetch_add(1, std::sync::atomic::Ordering::Relaxed);
+            return Ok(false);
+        }
+        if let Err((sig, what)) = r {
+            return Err((pos, sig, what, format!("{:?}", st.m)));
+        }
+        for (k, t) in &st.m.last {
+            if prev_model.get(k) != Some(t) || *t == st.m.now {
+                last_lo.insert(*k, before);
+                last_hi.insert(*k, after);
+            }
+        }
+    }
+    Ok(true)
+}
+
+fn realtime_sequences(ctx: &Ctx, rep: &mut Report) {
+    let depth: u32 = if ctx.thorough() { 5 } else { 4 };
+    let na = rt_acts().len() as u64;
+    let n = na.pow(depth) * 2;
+    ctx.family(
+        rep,
+        "realtime-sequences",
+        &format!(
+            "production clock: every sequence of {} actions over {{next request of the transfer under test, GET on another path, PUT block on another endpoint, pause {} ms}} with expiry {} ms, download and upload; same step function and oracle as the fake-clock search, the model's time being the harness's measurement; a step whose idle times are not clearly < 0.4 x expiry or > 1.5 x expiry is discarded as inconclusive",
+            depth, RT_LONG, RT
+        ),
+        n,
+        true,
+        |i, rep| {
+            let upload = i % 2 == 1;
+            let mut x = i / 2;
+            let mut seq = Vec::new();
+            for _ in 0..depth {
+                seq.push((x % na) as usize);
+                x /= na;
+            }
+            match rt_sequence(upload, &seq) {
+                Ok(_) => {
+                    rep.visit(&(upload, seq.clone()));
+                    rep.count("realtime-sequence-run");
+                }
+                Err((pos, sig, what, model)) => {
+                    let labels: Vec<String> = seq.iter().map(|a| format!("{:?}", rt_acts()[*a])).collect();
+                    rep.violation(viol("realtime-sequences", i, &sig, format!("real clock, step {} of {:?}: {}", pos, labels, what), Json::obj().set("upload", upload).set("sequence", format!("{:?}", labels)).set("model", model)));
+                }
+            }
+            if i == 0 || ctx.want_sample(i, n) {
+                rep.sample(Json::obj().set("family", "realtime-sequences").set("upload", upload).set("sequence", format!("{:?}", seq)));
+            }
+        },
+    );
+}
+
+/// Real clock: retention under load (expiry one minute, no pauses) and reclamation (expiry 40 ms, pause 100 ms).
+fn realtime_retention_and_reclamation(ctx: &Ctx, rep: &mut Report) {
+    let counts: [u64; 5] = [1, 10, 100, 1000, 3000];
+    let n = counts.len() as u64 * 2;
+    ctx.family(
+        rep,
+        "realtime-retention-under-load",
+        "production clock, expiry 60 s: a transfer on key K is started, then 1..3000 requests on distinct other keys without pausing, then the follow-up on K: served from the cache / the upload completes with its buffered bytes (discarded as inconclusive if the whole case took more than 24 s)",
+        n,
+        true,
+        |i, rep| {
+            let c = counts[(i / 2) as usize];
+            let upload = i % 2 == 1;
+            let t0 = std::time::Instant::now();
+            let mut srv = Server::new(BUDGET, Duration::from_millis(60_000));
+            let app = |call: &AppCall| -> AppReply {
+                if call.request.code == 1 {
+                    AppReply { code: 0x45, options: vec![], payload: dbody(0) }
+                } else {
+                    AppReply { code: 0x44, options: vec![], payload: vec![] }
+                }
+            };
+            let body = ubody();
+            if upload {
+                for k in 0..4u32 {
+                    srv.exchange(1, &request_bytes(0, 3, k as u16, &[1], &["k"], &[], Some((k, true, 0)), None, &body[k as usize * 16..k as usize * 16 + 16]), &app);
+                }
+            } else {
+                srv.exchange(1, &request_bytes(0, 1, 1, &[1], &["k"], &[], None, None, &[]), &app);
+            }
+            for j in 0..c {
+                let p = format!("o{}", j);
+                if j % 2 == 0 {
+                    srv.exchange((j % 3) as u32 + 1, &request_bytes(0, 1, (100 + j) as u16, &[2], &[&p], &[], None, None, &[]), &app);
+                } else {
+                    srv.exchange((j % 3) as u32 + 1, &request_bytes(0, 3, (100 + j) as u16, &[2], &[&p], &[], Some((0, true, 0)), None, &[7; 16]), &app);
+                }
+                if j & 255 == 0 {
+                    mccore::guard::tick();
+                }
+            }
+            let calls = srv.app_calls.len();
+            let ok = if upload {
+                let x = srv.exchange(1, &request_bytes(0, 3, 9, &[1], &["k"], &[], Some((4, false, 0)), None, &body[64..72]), &app);
+                x.app_invoked && srv.app_calls.last().map(|c| c.request.payload == body).unwrap_or(false)
+            } else {
+                let x = srv.exchange(1, &request_bytes(0, 1, 9, &[1], &["k"], &[], None, Some((1, false, 0)), &[]), &app);
+                let r = x.reply.as_deref().and_then(parse_reply);
+                !x.app_invoked && srv.app_calls.len() == calls && r.map(|r| r.payload == dbody(0)[16..32]).unwrap_or(false)
+            };
+            rep.visit(&(c, upload));
+            if t0.elapsed() > Duration::from_secs(24) {
+                INCONCLUSIVE.fetch_add(1, std::sync::atomic::Ordering::Relaxed);
+            } else if ok {
+                rep.count("state-survived-intervening-requests-real-clock");
+            } else {
+                rep.violation(viol(
+                    "realtime-retention-under-load",
+                    i,
+                    "C20/state-lost-under-load",
+                    format!("real clock, expiry 60 s: after {} requests on other keys the {} on K did not continue from its cached state", c, if upload { "upload" } else { "download" }),
+                    Json::obj().set("intervening_requests", c).set("upload", upload),
+                ));
+            }
+            if i == 0 {
+                rep.sample(Json::obj().set("family", "realtime-retention-under-load").set("intervening_requests", c).set("upload", upload));
+            }
+        },
+    );
+    let n = 12 * 2;
+    ctx.family(
+        rep,
+        "realtime-reclamation",
+        "production clock, expiry 40 ms: 1..12 abandoned 1 KiB Block1 uploads on distinct keys, a pause of 100 ms, then one request (on one of the old keys / on a new key): at most the one new entry is physically held (live key instances, calibrated per entry) and the snapshot shows no buffered bytes of the abandoned uploads",
+        n,
+        true,
+        |i, rep| {
+            let c = i / 2 + 1;
+            let same_key = i % 2 == 1;
+            let per = clones_per_entry();
+            let base = Ep::live();
+            let mut srv = Server::new(1152, Duration::from_millis(40));
+            let app = |_c: &AppCall| AppReply { code: 0x44, options: vec![], payload: vec![] };
+            for j in 0..c {
+                let p = format!("r{}", j);
+                srv.exchange(j as u32 + 10, &request_bytes(0, 3, j as u16, &[3], &[&p], &[], Some((0, true, 6)), None, &vec![0xAB; 1024]), &app);
+            }
+            rt_pause(100);
+            if same_key {
+                srv.exchange(10, &request_bytes(0, 3, 999, &[3], &["r0"], &[], Some((0, true, 6)), None, &vec![0xCD; 1024]), &app);
+            } else {
+                srv.exchange(5, &request_bytes(0, 1, 999, &[3], &["fresh"], &[], None, None, &[]), &app);
+            }
+            let held_after = if per > 0 { (Ep::live() - base) / per } else { 0 };
+            let snap = srv.snapshot();
+            let stale_bytes: usize = snap.iter().filter_map(|e| e.5.as_ref()).filter(|b| b.first() == Some(&0xAB)).map(|b| b.len()).sum();
+            rep.visit(&(c, same_key));
+            if held_after <= 1 && stale_bytes == 0 && snap.len() <= 1 {
+                rep.count("abandoned-transfers-reclaimed-real-clock");
+            } else {
+                rep.violation(viol(
+                    "realtime-reclamation",
+                    i,
+                    "C20/expired-entries-not-reclaimed",
+                    format!("real clock, expiry 40 ms: {} abandoned uploads, 100 ms pause, one request: {} entries physically held, {} stale bytes visible", c, held_after, stale_bytes),
+                    Json::obj().set("abandoned", c).set("same_key", same_key),
+                ));
+            }
+            drop(srv);
+            if i == 0 {
+                rep.sample(Json::obj().set("family", "realtime-reclamation").set("abandoned", c).set("same_key", same_key));
+            }
+        },
+    );
+}
+
+fn realtime_all(ctx: &Ctx, rep: &mut Report) {
+    realclock_conformance(ctx, rep);
+    realtime_sequences(ctx, rep);
+    realtime_retention_and_reclamation(ctx, rep);
+    rep.note("realtime_steps_discarded_as_inconclusive", INCONCLUSIVE.load(std::sync::atomic::Ordering::Relaxed));
+}
+
+/// Does the fake-clock seam drive the implementation's notion of time? A cached download, 5 x the expiry on the
+/// harness-owned clock, then the follow-up: with an effective seam the state has expired and the application is
+/// consulted. (An implementation whose expiry is broken looks the same as one that reads another clock; the
+/// real-time families then decide.)
+#[cfg(feature = "fakeclock")]
+fn seam_effective() -> bool {
+    clock::reset();
+    let mut srv = Server::new(BUDGET, Duration::from_millis(T));
+    let app = |_c: &AppCall| AppReply { code: 0x45, options: vec![], payload: dbody(0) };
+    srv.exchange(1, &request_bytes(0, 1, 1, &[1], &["k"], &[], None, None, &[]), &app);
+    clock::advance(5 * T);
+    let x = srv.exchange(1, &request_bytes(0, 1, 2, &[1], &["k"], &[], None, Some((1, false, 0)), &[]), &app);
+    clock::reset();
+    x.app_invoked
+}
+#[cfg(not(feature = "fakeclock"))]
+fn seam_effective() -> bool {
+    false
+}
+
 pub fn run(ctx: &Ctx, rep: &mut Report) {
     if !clock::FAKE {
-        realclock_conformance(ctx, rep);
-        rep.assume("realclock configuration: production Instant clock, one-sided conformance runs only");
+        realtime_all(ctx, rep);
+        rep.assume("realclock configuration: production Instant clock; verdicts are guarded by measured idle times (inconclusive steps are discarded, never reported)");
         return;
     }
+    if !seam_effective() {
+        rep.note("fake_clock_seam_effective", false);
+        rep.assume("the handler's state did not expire when the harness-owned fake clock (lru_time_cache's sn_fake_clock seam) was advanced past the expiry: the implementation reads another clock (or its expiry is broken). The fake-clock families were therefore NOT run; the production-clock families (sleeping, guarded two-sided verdicts) are the deciding exploration on this tree");
+        realtime_all(ctx, rep);
+        return;
+    }
+    rep.note("fake_clock_seam_effective", true);
     search(ctx, rep, false);
     search(ctx, rep, true);
     retention(ctx, rep);
